@@ -67,6 +67,13 @@ def analyse(mod, run, label):
             run.check(same, "S4-advance-equals-zero-filled-size", {"fn": f.name, "memset": loc(ms)},
                       Finding("S4-advance-differs-from-filled-size", f.name, "memset@%s" % ms.line, "advance",
                               "%s zero-fills a region of the output and then advances the cursor over it by a differently computed amount (%s): if the two ever differ, bytes the function never wrote lie inside the returned length" % (f.name, loc(adv)), loc=loc(adv)))
+        # S5: a fixed-size block from malloc() that is handed to a long-lived object is overwritten in full first
+        for (mi, st, ok) in raw_blocks_escaping(f):
+            run.s5 = getattr(run, "s5", 0) + 1
+            run.check(ok, "S5-escaping-block-fully-initialised", {"fn": f.name, "malloc": loc(mi)},
+                      Finding("S5-escaping-block-not-initialised", f.name, "malloc@%s" % mi.line, "store",
+                              "%s stores the %s-byte block from malloc() (%s) into a long-lived object at %s without a dominating memset / memcpy / calloc of the whole block: the bytes it does not set keep whatever the heap held" % (
+                                  f.name, mi.ops[0].get("v"), loc(mi), loc(st)), loc=loc(st)))
         # constructors
         for (t, root, stmask) in constructor_states(fu):
             o = fu.objs[root]
@@ -80,6 +87,88 @@ def analyse(mod, run, label):
     if run.samples == [] or True:
         run.samples.append({"rule": "S2-read-after-write", "verdict": "discharged", "objects_tracked": nobj, "read_obligations": nreads, "config": label})
     return nobj, nreads, eng
+
+
+# blocks of which every byte is data (confirmed by reading): stored pointer type, struct that receives it.  The bitmap container's bit array is
+# read in full by every reader; the array / runs containers (uint16_t*) are used up to cardinality / numRuns only and are not listed.
+FULLY_MEANINGFUL = {("i8*", "struct.varintBitmap")}
+
+
+def dest_struct(f_addr, _f=[None]):
+    return _f[0](f_addr) if _f[0] else None
+
+
+def raw_blocks_escaping(f):
+    def ds(addr, d=0):
+        if addr["k"] != "inst" or d > 8: return None
+        x = f.imap[addr["v"]]
+        if x.op == "getelementptr":
+            inner = ds(x.ops[0], d + 1)
+            if inner: return inner
+            if "field" in x.d: return x["field"]["struct"]
+            return None
+        if x.op == "bitcast": return ds(x.ops[0], d + 1)
+        return None
+    dest_struct.__defaults__[0][0] = ds
+    return _raw_blocks_escaping(f)
+
+
+def _raw_blocks_escaping(f):
+    """[(malloc call, escaping store, fully initialised before?)] for malloc(constant) blocks whose pointer is stored outside the frame"""
+    out = []
+    def aliases(root_id):
+        al = {root_id}; grew = True
+        while grew:
+            grew = False
+            for i in f.insts():
+                if i.op in ("bitcast",) and i.ops[0]["k"] == "inst" and i.ops[0]["v"] in al and i.id not in al: al.add(i.id); grew = True
+        return al
+    def frame_local(addr, seen=()):
+        if addr["k"] != "inst" or addr["v"] in seen: return False
+        i = f.imap[addr["v"]]
+        if i.op == "alloca": return True
+        if i.op in ("bitcast", "getelementptr"): return frame_local(i.ops[0], seen + (addr["v"],))
+        return False
+    f.dom()
+    for m in f.calls("malloc"):
+        if m.ops[0]["k"] != "int": continue
+        n = int(m.ops[0]["v"]); al = aliases(m.id)
+        stores = [i for i in f.insts() if i.op == "store" and i.ops[0]["k"] == "inst" and i.ops[0]["v"] in al and not frame_local(i.ops[1]) and (i.ops[0]["t"], dest_struct(i.ops[1])) in FULLY_MEANINGFUL]
+        if not stores: continue
+        # the pointer re-loaded from where it was stored is the same pointer
+        def akey(o, d=0):
+            if o["k"] != "inst" or d > 8: return (o["k"], o.get("v"))
+            x = f.imap[o["v"]]
+            if x.op in ("getelementptr", "bitcast"): return (x.op, x.d.get("coff"), tuple(sorted((v["stride"], akey(v["idx"], d + 1)) for v in x.d.get("var", [])))) + (akey(x.ops[0], d + 1),)
+            if x.op == "load": return ("ld", akey(x.ops[0], d + 1))
+            return ("v", x.id)
+        skeys = {akey(st.ops[1]) for st in stores}
+        for i in f.insts():
+            if i.op == "load" and i["t"].endswith("*") and akey(i.ops[0]) in skeys: al.add(i.id)
+        al = set().union(*[aliases(x) for x in list(al)])
+        inits = []
+        for c in f.calls():
+            cal = c.get("callee") or ""
+            if cal.startswith(("llvm.memset", "llvm.memcpy", "llvm.memmove")) and c.ops[0]["k"] == "inst" and c.ops[0]["v"] in al and c.ops[2]["k"] == "int" and int(c.ops[2]["v"]) >= n: inits.append(c)
+        for st in stores:
+            ok = any(c.block.id != st.block.id and f.dominates(c.block.id, st.block.id) or (c.block.id == st.block.id and c.block.insts.index(c) < st.block.insts.index(st)) for c in inits)
+            if not ok and inits:
+                # initialised after the pointer was stored: no return is reachable from the store without passing the initialisation or a free()
+                # (the allocation-failure path releases the object instead)
+                stop = {c.block.id for c in inits} | {c.block.id for c in f.calls("free")}
+                later_same = any(c.block.id == st.block.id and c.block.insts.index(c) > st.block.insts.index(st) for c in inits)
+                reach_ret = False
+                if not later_same:
+                    seen = set(); work = list(st.block.succs)
+                    while work:
+                        b = work.pop()
+                        if b.id in seen or b.id in stop: continue
+                        seen.add(b.id)
+                        if b.term.op == "ret": reach_ret = True; break
+                        work += b.succs
+                ok = not reach_ret
+            out.append((m, st, ok))
+    return out
 
 
 def expr_key(fn, o, d=0):
@@ -170,6 +259,7 @@ def run(tier):
         run.floor("tracked stack/heap objects (%s)" % cfg, nobj, 85)
         run.floor("read obligations (%s)" % cfg, nreads, 150)
         run.floor("zero-filled output regions with a cursor step (%s)" % cfg, getattr(run, "s4", 0), 4); run.s4 = 0
+        run.floor("fixed-size malloc blocks stored into objects (%s)" % cfg, getattr(run, "s5", 0), 2); run.s5 = 0
     controls(run)
     run.coverage.update({"configurations": per,
                          "not_decided": "element-wise initialisation of arrays (heap or stack, variable index) is outside a must-analysis; 'fresh process' follows from S1 and S2"})
